@@ -32,6 +32,28 @@ Fixpoint datas (evs : list ev) : list (list N) :=
 Definition is_data_or_pending (e : ev) : bool :=
   match e with EvPending | EvData _ => true | _ => false end.
 
+Definition is_data (e : ev) : bool := match e with EvData _ => true | _ => false end.
+
+(* Body::is_end_stream of the scripted inner body, by kind of body:
+     0 = never true (the http_body default)
+     1 = true once every scripted frame has been yielded (tonic's EncodeBody after its trailers,
+         hyper's Incoming after its last chunk): what the http_body contract asks for
+     2 = true as soon as no data frame remains although trailers are still to come
+         (a body that breaks the contract) *)
+Definition inner_eos (mode : N) (evs : list ev) : bool :=
+  if mode =? 1 then match evs with [] => true | _ => false end
+  else if mode =? 2 then negb (existsb is_data evs)
+  else false.
+
+(* Body::size_hint of the scripted inner body: exact remaining data bytes when [hint], the
+   default (0, None) otherwise; GrpcWebCall::size_hint delegates to it (call.rs size_hint) *)
+Definition inner_size_hint (hint : bool) (evs : list ev) : N * option N :=
+  if hint then (nlen (concat (datas evs)), Some (nlen (concat (datas evs)))) else (0, None).
+
+(* observables of long byte strings: length and a polynomial digest instead of the bytes *)
+Definition digest (l : list N) : N := fold_left (fun h b => (h * 31 + b + 1) mod 4294967291) l 7.
+Definition BIG : N := 2048.
+
 (* ---------- constants ---------- *)
 Module WebConsts.
 Import String.
@@ -256,7 +278,7 @@ Fixpoint dec_quanta (l : list N) : option (list N) :=
 Definition sout_tr (o : sout) : tr :=
   match o with
   | SNone => Nd [Nn 0]
-  | SData d => Nd [Nn 1; Bs d]
+  | SData d => if BIG <? nlen d then Nd [Nn 5; Nn (nlen d); Nn (digest d)] else Nd [Nn 1; Bs d]
   | STrailers t => Nd [Nn 2; hm_canon t]
   | SErr c => Nd [Nn 3; Nn c]
   | SPending => Nd [Nn 4]
@@ -293,3 +315,46 @@ Definition obs_call (method : list N) (version : N) (headers : hm) (qevs : list 
 Definition obs_response (a : encoding) (revs : list ev) : tr := olist sout_tr (drain_encode a revs).
 (* a request body alone *)
 Definition obs_request (e : encoding) (qevs : list ev) : tr := olist sout_tr (drain_request e qevs).
+
+(* ---------- a hyper-like consumer of the response body ---------- *)
+(* hyper asks is_end_stream() before the first poll and after every data frame it has taken and
+   stops polling when the answer is true (the frame is sent with END_STREAM).
+   GrpcWebCall::is_end_stream delegates to the inner body (call.rs is_end_stream).
+   Result: the items taken, and whether the consumer stopped because of is_end_stream. *)
+Fixpoint hyper_encode (mode : N) (e : encoding) (evs : list ev) : list sout * bool :=
+  match evs with
+  | [] => if inner_eos mode [] then ([], true) else ([SNone], false)
+  | x :: r =>
+      if inner_eos mode (x :: r) then ([], true)
+      else
+        match poll_encode e (answer_of x) with
+        | SPending => hyper_encode mode e r
+        | SData d => let '(l, b) := hyper_encode mode e r in (SData d :: l, b)
+        | o => ([o], false)
+        end
+  end.
+
+Definition hint_tr (h : N * option N) : tr := Nd [Nn (fst h); oopt Nn (snd h)].
+Definition obs_response_hyper (mode : N) (hint : bool) (a : encoding) (revs : list ev) : tr :=
+  let '(l, b) := hyper_encode mode a revs in
+  (* tonic::body::Body::new replaces a body that is already at its end by Body::empty *)
+  Nd [hint_tr (if inner_eos mode revs then (0, Some 0) else inner_size_hint hint revs);
+      olist sout_tr l; obool b].
+
+(* the request body (Decode direction, base64) read by a hyper-like consumer; is_end_stream of
+   GrpcWebCall (fix f0f96413) = the inner body's AND the carry buffer is empty *)
+Fixpoint hyper_b64 (n : nat) (mode : N) (buf : list N) (evs : list ev) : list sout * bool :=
+  match n with
+  | O => ([SCAP], false)
+  | S n' =>
+      match poll_decode_b64 buf evs with
+      | (SPending, b, r) => hyper_b64 n' mode b r
+      | (SData d, b, r) =>
+          if inner_eos mode r && (nlen b =? 0) then ([SData d], true)
+          else let '(l, e) := hyper_b64 n' mode b r in (SData d :: l, e)
+      | (o, _, _) => ([o], false)
+      end
+  end.
+Definition obs_request_hyper (mode : N) (evs : list ev) : tr :=
+  if inner_eos mode evs then Nd [Nd []; Nn 1]
+  else let '(l, b) := hyper_b64 (b64_polls evs) mode [] evs in Nd [olist sout_tr l; obool b].
